@@ -1445,6 +1445,59 @@ fn scenario_vault_overflow(out: &mut Out) {
     w.finish(out, "vault-share-supply-at-i128-boundary");
 }
 
+/// vault positions with whole-share rounding dust (decimals offset 3: a share is worth less than one asset unit):
+/// mints of share counts that do not convert to a whole number of assets, then withdraw of max_withdraw - 1,
+/// of max_withdraw + 1, of EXACTLY max_withdraw(owner) by the owner, the same through a third-party operator
+/// holding exactly the needed share allowance, and redeem of max_redeem.  Labels only when the situation is
+/// really the intended one (computed on the mirror of the last observation).
+fn scenario_vault_dust(out: &mut Out) {
+    let off = 3u32;
+    let unit = 10i128.pow(off);
+    let mut w = World::new(Flav::Vault, 3, 50, 1, 5000, off);
+    let vault = w.nu;
+    fn maxw(w: &World, o: usize, unit: i128, vault: usize) -> i128 { w.m.bal[o] * (w.m.abal[vault] + 1) / (w.m.supply + unit) }
+    fn prevw(w: &World, a: i128, unit: i128, vault: usize) -> i128 { let d = w.m.abal[vault] + 1; (a * (w.m.supply + unit) + d - 1) / d }
+    let lab = |out: &mut Out, name: &str, ok: bool| out.label(&format!("cls/vault_out/{}/{}", name, if ok { "ok" } else { "fail" }));
+    for i in 0..3 { w.step(out, C::AssetMint(i, 1000)); }
+    let mut all = true;
+    for (i, sh) in [(0usize, 1500i128), (1, 2500), (2, 3700)] {
+        let ok = w.step(out, C::VMint(vec![i], vec![i], sh, i, i, i));
+        all &= ok && w.m.bal[i] == sh;
+    }
+    if all { out.label("cls/vault_in/mint-shares-not-whole-assets/ok"); }
+    // sibling: owner 2 withdraws max_withdraw - 1, then max_withdraw + 1 (refused)
+    let mx = maxw(&w, 2, unit, vault);
+    if mx >= 2 && prevw(&w, mx, unit, vault) < w.m.bal[2] {
+        let ok = w.step(out, C::VWithdraw(vec![2], mx - 1, 2, 2, 2));
+        if ok { lab(out, "withdraw-max-minus-1-with-dust", true); }
+    }
+    let mx = maxw(&w, 2, unit, vault);
+    if !w.step(out, C::VWithdraw(vec![2], mx + 1, 2, 2, 2)) { lab(out, "withdraw-max-plus-1-with-dust", false); }
+    // owner 0 withdraws exactly max_withdraw; the shares for it are fewer than his balance
+    let mx = maxw(&w, 0, unit, vault);
+    let (ps, b) = (prevw(&w, mx, unit, vault), w.m.bal[0]);
+    if mx >= 1 && ps < b {
+        let ok = w.step(out, C::VWithdraw(vec![0], mx, 0, 0, 0));
+        if ok && w.m.bal[0] == b - ps { lab(out, "withdraw-exactly-max-with-dust", true); }
+    }
+    // the same by operator 2 on owner 1's shares, with exactly the share allowance needed
+    let mx = maxw(&w, 1, unit, vault);
+    let (ps, b) = (prevw(&w, mx, unit, vault), w.m.bal[1]);
+    if mx >= 1 && ps < b {
+        w.step(out, C::Approve(vec![1], 1, 2, ps, 200));
+        let ok = w.step(out, C::VWithdraw(vec![2], mx, 2, 1, 2));
+        if ok && w.m.bal[1] == b - ps && w.m.allow[1][2].0 == 0 { lab(out, "withdraw-exactly-max-with-dust-by-operator", true); }
+    }
+    // sibling: redeem of max_redeem (the whole balance, dust included)
+    let b = w.m.bal[2];
+    if b > 0 && b % unit != 0 {
+        let ok = w.step(out, C::VRedeem(vec![2], b, 2, 2, 2));
+        if ok && w.m.bal[2] == 0 { lab(out, "redeem-max-with-dust", true); }
+    }
+    w.step(out, C::QSupply);
+    w.finish(out, "vault-withdraw-exactly-max-with-share-dust");
+}
+
 fn scenario_flavour(out: &mut Out, flav: Flav) {
     match flav {
         Flav::Allow | Flav::Block => {
@@ -2027,7 +2080,7 @@ pub fn run(pid: &str) {
 
     // 1. directed scenarios
     for &f in &flavs {
-        if f != Flav::Vault { safely(&mut out, |out| scenario_overflow(out, f)); } else { safely(&mut out, |out| scenario_vault_overflow(out)); }
+        if f != Flav::Vault { safely(&mut out, |out| scenario_overflow(out, f)); } else { safely(&mut out, |out| scenario_vault_overflow(out)); safely(&mut out, |out| scenario_vault_dust(out)); }
         safely(&mut out, |out| scenario_flavour(out, f));
     }
     for &f in &[Flav::Base, Flav::Allow, Flav::Block, Flav::Vault, Flav::Rwa, Flav::Votes] { safely(&mut out, |out| scenario_roles(out, f)); }
